@@ -24,6 +24,11 @@ def gen_member(r):
 def gen_case(seed, i):
     r = rng(seed, "group", i)
     recs = G.gen_file(r, min_recs=1)
+    if r.random() < 0.4:
+        # repeated records: two physical lines with the same cells are still two lines
+        full = [x for x in recs if x]
+        if full:
+            recs.insert(r.randint(0, len(recs)), list(r.choice(full)))
     n = r.randint(1, 4)
     members = []
     ids = set()
